@@ -1,6 +1,7 @@
 package client
 
 import (
+	"time"
 	"context"
 
 	"github.com/plgd-dev/go-coap/v3/message"
@@ -163,6 +164,57 @@ func zzC03_recycle() {
 		symAssert(len(b.tok) == 1 && b.tok[0] == 0xB1 && len(b.body) == 1 && b.body[0] == 0x5B, "caller B gets the response carrying its token and the content produced for it")
 	}
 	symAssert(a.resp != b.resp || a.resp == nil, "no response object is delivered to two callers")
+}
+
+// a caller-chosen token is used again after its first exchange has ended; the peer's late retransmission of the
+// first exchange's separate confirmable response (same message ID) arrives while the second request is
+// outstanding: the second call returns the content produced for the second request, never the old response
+func zzC03_token_reuse() {
+	s := zzNewSession()
+	cc := zzNewConn(s, zzConnCfg{midSeed: 1000, nstart: 2, maxRetrans: 4})
+	symSetNow(time.Unix(0, 1<<41)) // everything happens within one exchange lifetime
+	tok := message.Token{0xA1, 0xA2}
+	tag1, tag2 := symU8("tag1"), symU8("tag2")
+	// the separate response is confirmable: its retransmission is recognised by its message ID (a duplicated
+	// non-confirmable response that matches a reused token is inherent to the protocol and not claimed)
+	rtyp := message.Confirmable
+	a := &zzCall{token: tok}
+	go zzDo(cc, a)
+	zzWaitWritten(s, 1)
+	// empty ACK, then the separate response with the peer's own message ID
+	_ = cc.Process(nil, zzDatagram(message.Acknowledgement, s.written[0].mid, codes.Empty, nil, nil))
+	old := zzDatagram(rtyp, 30001, codes.Content, tok, []byte{tag1})
+	_ = cc.Process(nil, old)
+	symWaitUntil(func() bool { return a.done })
+	symIdle()
+	symAssert(a.err == nil && len(a.body) == 1 && a.body[0] == tag1, "the first call returns the first response")
+	// the same token again
+	b := &zzCall{token: tok}
+	base := len(s.written)
+	go zzDo(cc, b)
+	zzWaitWritten(s, base+1)
+	symIdle()
+	symAssert(!b.done, "the second request is outstanding")
+	// the peer retransmits the old separate response (it missed our acknowledgement), same message ID
+	_ = cc.Process(nil, append([]byte(nil), old...))
+	symIdle()
+	symCover("late-duplicate-delivered")
+	if b.done {
+		symAssert(b.err != nil || len(b.body) == 1 && b.body[0] == tag2, "a retransmitted response of an earlier exchange is not delivered to a later request with the same token")
+	}
+	if !b.done {
+		// now the real answer
+		var w zzWritten
+		for _, x := range s.written[base:] {
+			if x.code == codes.GET {
+				w = x
+			}
+		}
+		zzAnswer(cc, w, tag2, 0, 1)
+		symWaitUntil(func() bool { return b.done })
+		symAssert(b.err == nil && len(b.body) == 1 && b.body[0] == tag2, "the second call returns the content produced for the second request")
+	}
+	symAssert(cc.tokenHandlerContainer.Length() == 0, "no token continuation is left behind")
 }
 
 func zzC03_selftest() {
